@@ -434,6 +434,62 @@ func c11Tamper(r *kernel.Run, s C11Spec, w *World, key *kernel.Key, ra *kernel.R
 			r.Probe("degenerate-witness-rejected")
 		}
 	}
+	// Byzantine holder whose credential carries, besides its (revoked) revocation attribute, a hidden attribute of
+	// value 1: (u, e) = (nu, 1) is a "witness" for every accumulator (nu^1 = nu). It presents that pair as its
+	// witness; the library's own prover then ties the non-revocation part to the attribute of value 1.
+	for _, variant := range []string{"attribute-1", "secret-key-1"} {
+		id := "byzantine:trivial-witness-for-" + variant
+		if !wanted(s.OnlyFault, id) {
+			continue
+		}
+		r.Fault("byzantine-holder")
+		secret, attrs := newSecret(), []*big.Int{big.NewInt(1), randBits(w.hr, 100)}
+		if variant == "secret-key-1" { // the holder chooses its own secret key; the issuer never sees it
+			secret, attrs = big.NewInt(1), []*big.Int{randBits(w.hr, 90), randBits(w.hr, 100)}
+		}
+		bc, led := signRevCredential(key, ra, secret, attrs)
+		if err := ra.Revoke(led.Witness); err != nil {
+			panic(err)
+		}
+		head := *ra.SAccs[ra.Head()]
+		if _, err := head.UnmarshalVerify(pk); err != nil {
+			panic(err)
+		}
+		bc.NonRevocationWitness = &revocation.Witness{U: new(big.Int).Set(ra.Accs[ra.Head()].Nu), E: big.NewInt(1), SignedAccumulator: &head}
+		var pl gabi.ProofList
+		var err error
+		if p := guard(func() {
+			if variant == "attribute-1" {
+				var pd *gabi.ProofD
+				pd, err = bc.CreateDisclosureProof(nil, nil, true, sess.Context, sess.Nonce)
+				pl = gabi.ProofList{pd}
+				return
+			}
+			// the secret key's randomizer is handed to the builder by the caller: the holder reads the
+			// non-revocation part's randomizer off a prepared builder (CreateProof(0) returns randomizers)
+			// and hands in that one instead of the list's
+			if err = bc.NonrevPrepareCache(); err != nil {
+				return
+			}
+			var inner *gabi.DisclosureProofBuilder
+			if inner, err = bc.CreateDisclosureProofBuilder(nil, nil, true); err != nil {
+				return
+			}
+			probe := inner.CreateProof(big.NewInt(0)).(*gabi.ProofD)
+			pl, err = gabi.ProofBuilderList{&ownSecretRandomizerBuilder{inner, probe.AResponses[0]}}.BuildProofList(sess.Context, sess.Nonce, sess.IsSig)
+		}); p != "" || err != nil {
+			r.Probe("byzantine-prover-refused")
+			continue
+		}
+		r.Eval(1)
+		v := verifyWire(mustJSON(pl), sess)
+		if v.Accepted {
+			r.Violate("C11:revoked-credential-accepted", map[string]any{"fault": id},
+				"a credential whose revocation attribute was revoked in accumulator %d is accepted as non-revoked against that accumulator: the holder used (u, e) = (nu, 1) as witness and the credential's hidden %s as revocation attribute", ra.Head(), variant)
+		} else {
+			r.Probe("trivial-witness-rejected")
+		}
+	}
 	// Byzantine holder: stale (possibly revoked) witness paired with the newest accumulator through a prepared commitment
 	if wanted(s.OnlyFault, "byzantine:stale-witness-new-accumulator") && provedIdx < uint64(ra.Head()) {
 		r.Fault("byzantine-holder")
@@ -476,3 +532,17 @@ func TestC11(t *testing.T) {
 }
 
 var _ = big.NewInt
+
+// ownSecretRandomizerBuilder is a Byzantine holder's wrapper around an honest disclosure builder: it
+// ignores the secret-key randomizer the proof list hands out and uses one of its own choosing.
+type ownSecretRandomizerBuilder struct {
+	inner *gabi.DisclosureProofBuilder
+	rnd   *big.Int
+}
+
+func (o *ownSecretRandomizerBuilder) Commit(map[string]*big.Int) ([]*big.Int, error) {
+	return o.inner.Commit(map[string]*big.Int{"secretkey": o.rnd})
+}
+func (o *ownSecretRandomizerBuilder) CreateProof(c *big.Int) gabi.Proof          { return o.inner.CreateProof(c) }
+func (o *ownSecretRandomizerBuilder) PublicKey() *gabikeys.PublicKey              { return o.inner.PublicKey() }
+func (o *ownSecretRandomizerBuilder) SetProofPCommitment(*gabi.ProofPCommitment) {}
